@@ -57,7 +57,8 @@ PROPS = {
             "parts": [rp("storefs", "TestC09Readers", (25, 2), (300, 8), helpers=["cmd/vhelper"]), rp("storefs", "TestC09Kill", (80, 2), (1500, 8), helpers=["cmd/vhelper"]),
                       rp("storefs", "TestC09Faults", (30, 2), (500, 8), helpers=["cmd/vhelper"])]},
     "C10": {"level": "exploration", "assumptions": SIM_ASSUME + ["variables reach the runner as decoded JSON (float64 numbers), as the API delivers them"],
-            "parts": [sim("TestC10Sim", q=(200, 4), t=(2500, 16)), rp("storefs", "TestC10Codec", (2000, 2), (50000, 8))]},
+            "parts": [sim("TestC10Sim", q=(200, 4), t=(2500, 16)), rp("storefs", "TestC10Codec", (2000, 2), (50000, 8)),
+                      rp("procs", "TestC10Binary", (4, 2), (64, 8), helpers=["cmd/vhelper", "pkg:github.com/Flowpack/prunner/cmd/prunner"])]},
     "C11": {"level": "exploration", "assumptions": SIM_ASSUME + ["the 3 s persist interval is checked for its stated bound with 1.5 s slack on the sandbox clock; a canary timer turns starvation into 'inconclusive'"],
             "parts": [sim("TestC11Sim", q=(300, 4), t=(4000, 16)),
                       {"pkg": "sim", "test": "TestC11Persist", "quick": {"checks": 1, "shards": 1, "shrink": "0s", "timeout": "10m"}, "thorough": {"checks": 4, "shards": 4, "shrink": "0s", "timeout": "1h"}},
